@@ -92,6 +92,7 @@ FIXED = [
  ("C16", "6304e98", "the parser ignored the result of 13 code-emitting calls (N of / N% of / in / at / not / defined / set markers / all-any-none, and the anonymous `$` of a for-of body): when the code buffer could not grow at that instruction compilation reported success with the instruction missing (assertions in yr_execute_code, ERROR_INTERNAL_FATAL_ERROR from every scan)"),
  ("C16", "8815d6e", "NULL dereference (strncmp) in yr_parser_emit_pushes_for_rules over a rule whose declaration had failed half-way for lack of memory"),
  ("C08", "c8fe739", "yr_rules_save ignored the result of fclose: a write error that surfaces only at flush time (disk full, buffered stdio) was reported as ERROR_SUCCESS for a file that does not load"),
+ ("C13", "math-empty-fix", "math.mode() / math.count(b) / math.percentage(b) were undefined for an empty file scanned from a path or descriptor (its block has no data pointer) but defined for the same zero bytes scanned from memory"),
  ("C18", "dirmode-exit-fix", "directory / scan-list mode: a per-file scan error was printed by the scanning thread but never reached main's result, so `yara` exited 0 although an error was reported"),
  ("C18", "cli-culprit-fix", "yara CLI printed `string \"$x\" in rule \"r\" caused could not open file` for an unreadable file after an earlier file on the same thread had hit a limit"),
 ]
@@ -115,6 +116,8 @@ def main():
         c = commit
         if commit == "elf-fix":
             c = next((l.split()[0] for l in log if "elf module leaked" in l), commit)
+        if commit == "math-empty-fix":
+            c = next((l.split()[0] for l in log if "undefined for an empty file" in l), commit)
         if commit == "dirmode-exit-fix":
             c = next((l.split()[0] for l in log if "exited 0 after per-file scan errors" in l), commit)
         if commit == "cli-culprit-fix":
